@@ -71,6 +71,10 @@ func (x *Exec) commandKind(st *State, p VPtr) (int64, bool) {
 // database state is a guarantee step.
 func (x *Exec) checkBatchCommand(st *State, p VPtr) {
 	g := st.ghost.db
+	x.siteAsserts(st, st.top(), "batch", "", map[string]TV{"cmd": {p, p.Typ}})
+	if st.dead {
+		return
+	}
 	kind, ok := x.commandKind(st, p)
 	if !ok {
 		x.unsupported(st, "command kind of a batched command is not a constant")
